@@ -107,6 +107,7 @@ func runC11(c *an.Ctx) {
 	p := c.P
 	ruleJ5(c)
 	ruleJ7(c)
+	ruleJ6(c)
 	// ---------------- J1 ----------------
 	repl := globalInitCall(p, pkgCore, "encodeJournalName")
 	reCall := globalInitCall(p, pkgCore, "jobJournalRe")
